@@ -189,7 +189,7 @@ def convergence(chk, t, rng):
                         if nn == n0 and (np.abs(T[:-1]) * dz ** 2 / Kz[:-1]).max() > 1.0:
                             skip = True                 # not resolved by the coarsest grid: outside the property
                             break
-                        lv = [0, nn // 3, (2 * nn) // 3, nn]
+                        lv = [0, nn // 3, (2 * nn) // 3, nn] if (mx + my) % 2 else [0, nn // 4, nn // 2]     # with and without the top node among the outputs
                         heights = [float(z[k]) for k in lv]
                         ex, growth = exact_response(f, float(z[0]), float(z[-1]), kx, ky, heights)
                         if growth > 18.0:
@@ -238,19 +238,38 @@ def judge_sampling(chk, emitted, t, rng):
                     (err, c, d), (err2, c2, d2), table = identify_layer(M, i, z, prof, lx, ly)
                     n += 1
                     chk.case(json.dumps([nz, rep, lx, ly, i]))
-                    sc = {"kind": "sampling", "nz": nz, "layer": i, "identified_node": c, "identified_thickness": d, "z": z.tolist(), "Kz": prof[4].tolist()}
+                    sc = {"kind": "sampling", "nz": nz, "layer": i, "z": z.tolist(), "Kz": prof[4].tolist()}
                     want = by_nz[nz]["steps"][i] if nz in by_nz else {"coef": i, "dz": i}
                     if table[(want["coef"], want["dz"])] < 0.02:
                         continue                    # the specification's assignment explains the step
-                    if err > 0.05 or err2 < 0.08:
-                        chk.violation("layer %d of %d nodes: the step of the real sweep is not explained by the coefficients of any single node and layer thickness (best match node %d / thickness %d with residual %.3f)"
-                                      % (i, nz, c, d, err), sc, klass={"check": "sampling_unexplained"})
-                        continue
-                    if c in (i, i + 1) and d == i:
-                        chk.drift_note("layer %d samples node %d; the specification samples node %d (both inside the layer: consistent)" % (i, c, want["coef"]))
+                    # effective coefficients of the step under the layer's own thickness: Kz_eff = -dz/b, T_eff = c/dz
+                    dzi = float(np.diff(z)[i])
+                    kz_eff = (-dzi / M[0, 1]).real
+                    t_eff = M[1, 0] / dzi
+                    u, v, Kx, Ky, Kz = prof
+                    # per profile: the value the step saw (only the pure probes separate the arrays)
+                    seen = {"Kz": (kz_eff, Kz)}
+                    if ly == 0.0:
+                        seen["Kx"] = (-t_eff.real / lx ** 2, Kx)
+                        seen["u"] = (-t_eff.imag / lx, u)
+                    elif lx == 0.0:
+                        seen["Ky"] = (-t_eff.real / ly ** 2, Ky)
+                        seen["v"] = (-t_eff.imag / ly, v)
+                    inside = all(min(a[i], a[i + 1]) * (1 - 0.03) <= val <= max(a[i], a[i + 1]) * (1 + 0.03) if a[i] > 0 else min(a[i], a[i + 1]) * (1 + 0.03) <= val <= max(a[i], a[i + 1]) * (1 - 0.03)
+                                 for val, a in seen.values())
+                    in_column = all(min(a.min(), a.max()) - 0.03 * abs(a).max() <= val <= max(a.min(), a.max()) + 0.03 * abs(a).max() for val, a in seen.values())
+                    if inside:
+                        chk.drift_note("layer %d of %d nodes does not use the specification's sample (node %d) but values between those of its two nodes: another consistent design" % (i, nz, want["coef"]))
+                    elif in_column:
+                        # a fixed index offset (node i-1, i+2, the thickness of a neighbouring layer) is still an O(dz) sample: the
+                        # refinement test below decides; the identification is reported
+                        chk.drift_note("layer %d of %d nodes: the step is explained by node %d / thickness %d (residual %.3f), outside the layer; effective values %s"
+                                       % (i, nz, c, d, err, {k: round(float(vv[0]), 4) for k, vv in seen.items()}))
                     else:
-                        chk.violation("layer %d (nodes %d, %d) of the sweep uses the coefficients of node %d and the thickness of layer %d: a sample outside its layer / a foreign thickness makes the scheme inconsistent for height-dependent profiles"
-                                      % (i, i, i + 1, c, d), sc, klass={"check": "sampling", "node_offset": c - i, "dz_offset": d - i})
+                        bad = [k for k, (val, a) in seen.items() if not (min(a.min(), a.max()) - 0.03 * abs(a).max() <= val <= max(a.min(), a.max()) + 0.03 * abs(a).max())]
+                        chk.violation("layer %d of %d nodes: the step of the real sweep acts with %s = %s, outside the range of that profile over the whole column (%s): no sampling of the profile explains it"
+                                      % (i, nz, bad[0], round(float(seen[bad[0]][0]), 5), [round(float(x), 5) for x in (seen[bad[0]][1].min(), seen[bad[0]][1].max())]),
+                                      sc, klass={"check": "sampling_out_of_range", "profile": bad[0]})
             # boundary node and mean mode through the public solver
             nx, ny, dom = 8, 6, (8.0 * 2 * np.pi, 6.0 * 2 * np.pi)       # kx = mx * 2 pi / 16 pi ... unit-free small wavenumbers
             mx, my = 1, 1
@@ -268,10 +287,9 @@ def judge_sampling(chk, emitted, t, rng):
             n += 1
             sc = {"kind": "boundary_node", "nz": nz, "identified": cands[0][1]}
             if cands[0][0] > 1e-8:
-                chk.violation("%d nodes: the surface response of the real solver is not explained by a decaying continuation built from any node's coefficients (best: node %d, residual %.2e)" % (nz, cands[0][1], cands[0][0]),
-                              sc, klass={"check": "boundary_unexplained"})
+                chk.drift_note("%d nodes: the surface response is not explained by a decaying continuation built from a single node's coefficients (best: node %d, residual %.2e)" % (nz, cands[0][1], cands[0][0]))
             elif cands[0][1] != nz - 1:
-                chk.violation("%d nodes: the upper boundary condition is built from the coefficients of node %d, not of the top node %d" % (nz, cands[0][1], nz - 1), sc, klass={"check": "boundary_node"})
+                chk.drift_note("%d nodes: the upper boundary condition is built from the coefficients of node %d, not of the top node %d (the refinement test decides)" % (nz, cands[0][1], nz - 1))
             # mean mode: resistance of every layer between the harmonic bounds, equal to the specification's weights
             q0 = np.full((ny, nx), 0.5)
             _, conc, _ = steady_state_transport_solver(q0, z, prof, dom, list(range(nz)), modes=(nx, ny), halo=0.0, precision="double", srf_bg_conc=1.0)
@@ -283,9 +301,12 @@ def judge_sampling(chk, emitted, t, rng):
                 trap = dz[i] * (0.5 / Kz[i] + 0.5 / Kz[i + 1])
                 n += 1
                 sc = {"kind": "mean_quadrature", "nz": nz, "layer": i, "resistance": R, "bounds": [lo, hi]}
-                if not (lo * (1 - 1e-9) <= R <= hi * (1 + 1e-9)):
-                    chk.violation("mean mode, layer %d: the concentration drop per unit flux %.6g is outside [dz/Kmax, dz/Kmin] = [%.6g, %.6g]: not a quadrature of 1/Kz over that layer" % (i, R, lo, hi),
+                glo, ghi = dz[i] / Kz.max(), dz[i] / Kz.min()
+                if not (glo * (1 - 1e-9) <= R <= ghi * (1 + 1e-9)):
+                    chk.violation("mean mode, layer %d: the concentration drop per unit flux %.6g is outside [dz/Kmax, dz/Kmin] over the whole column = [%.6g, %.6g]: not a quadrature of 1/Kz" % (i, R, glo, ghi),
                                   sc, klass={"check": "mean_quadrature"})
+                elif not (lo * (1 - 1e-9) <= R <= hi * (1 + 1e-9)):
+                    chk.drift_note("mean mode, layer %d: resistance %.6g is outside the bounds of the layer's own nodes [%.6g, %.6g]" % (i, R, lo, hi))
                 elif abs(R - trap) > 1e-9 * trap:
                     chk.drift_note("mean mode, layer %d: resistance %.9g is inside the layer's bounds but not the trapezoidal value %.9g" % (i, R, trap))
     return n
